@@ -142,6 +142,34 @@ theorem crashAt_mem (d : Dir) (ops : List Op) (k j : Nat) (s : Dir)
       simp only [crashStates, List.mem_cons, List.mem_append]
       exact Or.inr (Or.inr (ih _ _ this))
 
+theorem crashAt_succ (d : Dir) (op : Op) (rest : List Op) (k j : Nat) :
+    crashAt d (op :: rest) (k + 1) j = crashAt (op.apply d) rest k j := by
+  unfold crashAt
+  by_cases hk : k > rest.length
+  · have : k + 1 > (op :: rest).length := by simp; omega
+    simp [hk]
+  · have hk' : ¬ (k + 1 > (op :: rest).length) := by simp; omega
+    simp only [hk', hk, if_false, List.take_succ_cons, run_cons, List.getElem?_cons_succ]
+
+/-- every enumerated crash state is a genuine crash point: `k` calls completed and, if `j > 0`,
+    exactly `j` bytes of the write in flight reached the file -/
+theorem crashStates_sound (d : Dir) (ops : List Op) (s : Dir) (h : s ∈ crashStates d ops) :
+    ∃ k j, crashAt d ops k j = some s := by
+  induction ops generalizing d with
+  | nil =>
+    simp only [crashStates, List.mem_singleton] at h
+    subst h; exact ⟨0, 0, by simp [crashAt, run]⟩
+  | cons op rest ih =>
+    simp only [crashStates, List.mem_cons, List.mem_append] at h
+    rcases h with rfl | h | h
+    · exact ⟨0, 0, by simp [crashAt, run]⟩
+    · obtain ⟨n, bs, j, rfl, hj0, hjl, rfl⟩ := mem_torn _ _ _ h
+      refine ⟨0, j, ?_⟩
+      have : j ≠ 0 := by omega
+      simp [crashAt, run, this, hjl]
+    · obtain ⟨k, j, hk⟩ := ih _ h
+      exact ⟨k + 1, j, by rw [crashAt_succ]; exact hk⟩
+
 /-! ## the discipline -/
 
 theorem safeOps_append (n : Name) (good : Bytes → Bool) (d : Dir) (xs ys : List Op) :
